@@ -52,7 +52,8 @@ def derives_only_from(prov, op, pred):
 
 
 def has_const_str(prov, op, text):
-    for o in prov.origins_op(op):
+    ip = Prov(prov.body, prov.extra, prov.stop_at, interproc=True)
+    for o in ip.origins_op(op):
         if o[0] == "const":
             d = dict(o[1])
             if d.get("str") == text:
@@ -125,12 +126,35 @@ def failure_returns(body):
             elif rv["ops"]:
                 p = op_place(rv["ops"][0])
                 d = single_def(body, p["l"]) if p and not p["p"] else None
+                hops = 0
+                while d and d[1] == "assign" and d[2]["rv"]["k"] == "use" and op_place(d[2]["rv"]["op"]) and not op_place(d[2]["rv"]["op"])["p"] and hops < 4:
+                    d = single_def(body, op_place(d[2]["rv"]["op"])["l"])
+                    hops += 1
                 if d and d[1] == "assign":
                     r2 = d[2]["rv"]
                     if r2["k"] == "agg" and r2.get("agg") == "adt" and r2["adt"].endswith("InsertReferencesResult"):
                         info["kind"] = "result"
                         info["failure"] = r2["ops"][r2["fields"].index("failure")]
                         info["count"] = r2["ops"][r2["fields"].index("num_inserted_references")]
+                elif d and d[1] == "call":
+                    # a local constructor helper such as `InsertReferencesResult::failed()`: accepted when
+                    # every return of the helper builds the struct from constants
+                    cb = body.facts.body(d[2].name)
+                    if cb is not None and not cb.calls:
+                        aggs = []
+                        for (rb, rst) in return_values(cb):
+                            r3 = rst["rv"]
+                            if r3["k"] == "agg" and r3.get("agg") == "adt" and r3["adt"].endswith("InsertReferencesResult") \
+                                    and all(op_const(o) is not None for o in r3["ops"]):
+                                aggs.append(r3)
+                            else:
+                                aggs = None
+                                break
+                        if aggs and len({tuple((op_const(o) or {}).get("int") for o in a["ops"]) for a in aggs}) == 1:
+                            r2 = aggs[0]
+                            info["kind"] = "result"
+                            info["failure"] = r2["ops"][r2["fields"].index("failure")]
+                            info["count"] = r2["ops"][r2["fields"].index("num_inserted_references")]
         out.append(info)
     return out
 
